@@ -687,6 +687,40 @@ def _prove_equal(t1, t2, cons, depth=0):
     return _prove_equal(a, b, cons + [_ge0(add(scale(d, -1), const(-1)))], depth + 1)
 
 
+def fail_signature(t1, t2, domain, ats=None, box=None, box_limit=40000):
+    """Fingerprint of the set of box points on which t1 != t2: 'count/points:digest'.  Two versions of a construct with the same
+    signature fail on exactly the same small inputs; a recorded finding is only recognised when the signature is unchanged."""
+    import hashlib
+    if ats is None:
+        ats = sorted(atoms(t1) | atoms(t2))
+    box = box or {}
+    ranges = [box.get(a, range(0, 7)) for a in ats]
+    total = 1
+    for r in ranges:
+        total *= max(len(r), 1)
+    while total > box_limit:
+        ranges = [r if len(r) <= 3 else range(r.start, r.stop - 1) for r in ranges]
+        nt = 1
+        for r in ranges:
+            nt *= max(len(r), 1)
+        if nt == total:
+            break
+        total = nt
+    h = hashlib.sha1()
+    n = 0
+    pts = 0
+    for vals in product(*ranges):
+        val = dict(zip(ats, vals))
+        if any(evaluate(d, val) < 0 for d in domain):
+            continue
+        pts += 1
+        a, b = evaluate(t1, val), evaluate(t2, val)
+        if a != b:
+            n += 1
+            h.update(repr((vals, a, b)).encode())
+    return '%d/%d:%s' % (n, pts, h.hexdigest()[:10])
+
+
 def find_witness(t1, t2, domain, ats=None, box=None, box_limit=200000):
     if ats is None:
         ats = sorted(atoms(t1) | atoms(t2))
